@@ -121,6 +121,8 @@ pub static MPROTECT_CALLS: AtomicI64 = AtomicI64::new(0);
 pub static MPROTECT_FAIL_PAGE: AtomicU64 = AtomicU64::new(0);
 /// != 0: every mprotect asking for PROT_WRITE|PROT_EXEC at once fails with EACCES
 pub static DENY_WX: AtomicU8 = AtomicU8::new(0);
+/// number of mprotect calls that were made to fail since the last plan_reset
+pub static MPROTECT_FAILS: AtomicU64 = AtomicU64::new(0);
 
 /// Pause points: (kind, 1-based ordinal of that kind within the section); the calling thread
 /// then waits until RELEASE is bumped or PAUSE_MAX_US elapsed.
@@ -140,6 +142,7 @@ pub fn plan_reset() {
     MPROTECT_FAIL_AT.store(0, SeqCst);
     MPROTECT_FAIL_PAGE.store(0, SeqCst);
     DENY_WX.store(0, SeqCst);
+    MPROTECT_FAILS.store(0, SeqCst);
     MPROTECT_CALLS.store(0, SeqCst);
     clear_flush_hook();
     PAUSE_KIND.store(0, SeqCst);
@@ -335,10 +338,12 @@ pub unsafe extern "C" fn mprotect(addr: *mut libc::c_void, len: libc::size_t, pr
     let covers = fp != 0 && (addr as usize) <= fp && fp < (addr as usize).saturating_add(len.max(1));
     let wx = (prot & libc::PROT_WRITE) != 0 && (prot & libc::PROT_EXEC) != 0;
     let r = if MPROTECT_FAIL_AT.load(SeqCst) == n || covers {
+        MPROTECT_FAILS.fetch_add(1, SeqCst);
         set_errno(libc::ENOMEM);
         -1
     } else if wx && DENY_WX.load(SeqCst) != 0 {
         // a W^X policy: writable+executable is refused, everything else passes
+        MPROTECT_FAILS.fetch_add(1, SeqCst);
         set_errno(libc::EACCES);
         -1
     } else {
